@@ -76,7 +76,7 @@ def build_script(rng, chain, prog):
     sent = {1: [], 3: []}
     for a in prog:
         ident += 1
-        ln, shape = rng.choice([0, 1, 7, 40, 200, 1200, 1460]), rng.choice([0, 0, 1, 2, 3, 5, 6, 7, 8, 9])
+        ln, shape = rng.choice([0, 1, 7, 40, 200, 1200, 1460]), rng.choice([0, 0, 1, 2, 3, 5, 6, 7, 8, 9, 10, 11])
         ls, rs = rng.choice(locs), rng.choice(rems)
         if a in ("wok", "wfail"):
             wseq[ls] += 1
@@ -135,7 +135,7 @@ def negotiation_script(rng, chain):
             ident[0] += 1
             wseq[s] += 1
             steps.append({"a": "wrtp", "s": s, "w": wseq[s] % 65536, "id": ident[0], "len": rng.choice([0, 1, 40, 1200]),
-                          "shape": rng.choice([0, 0, 1, 2, 3, 5, 6, 7, 8, 9]), "fail": False})
+                          "shape": rng.choice([0, 0, 1, 2, 3, 5, 6, 7, 8, 9, 10, 11]), "fail": False})
 
     def nack(s):
         ident[0] += 1
